@@ -486,7 +486,16 @@ func runContractiveGate(p *Program, r *RuleResult) {
 			}
 		}
 		// no success return while some definition is unchecked: every nil return is after the loop header
+		skipped := ""
+		if inLoop {
+			skipped = skipsIteration(p, view, call)
+			if skipped == "" {
+				skipped = leavesLoopEarly(p, view, call)
+			}
+		}
 		switch {
+		case skipped != "":
+			r.add(name, "contractivity-checked", Violated, p.instrPos(call), "some definitions are never tested for contractivity: the loop over the definitions can pass an element by, or stop, without the test ("+skipped+"); Unfold and EqualType do not terminate on a cyclic definition that slipped through")
 		case !inLoop || !elem:
 			r.add(name, "contractivity-checked", Violated, p.instrPos(call), "the contractivity test is not applied to every element of the definitions slice")
 		case !errExit:
